@@ -17,7 +17,25 @@ LOCK_NOTE = ('Trusted: Coq 8.16.1 kernel, no axioms; sequential consistency inst
              'enforced by the C++ types; hooks (UNODB_DETAIL_VERIF_HOOKS) placed at every lock-word / protected-field access; '
              'dsched deterministic scheduler; translator for the word functions.')
 
+QSBR_NOTE = ('Trusted: Coq 8.16.1 kernel, no axioms; theorems are about the coarse model (every QSBR API call atomic) in coq/Qsbr/QsbrModel.v, '
+             'tied to the code by driving several qsbr_per_thread instances from one OS thread and comparing state word, epochs, request lists, '
+             'orphan lists and the exact blocks freed after every call; interleavings of the atomic steps inside the calls are explored on the '
+             'real code with real threads under the deterministic scheduler (all schedules up to 2-3 preemptions + random) with the property '
+             'evaluated by a ghost in the harness - explored, not proved; sequential consistency; a thread counts as quiescent from the entry of '
+             'quiescent()/qsbr_pause().')
+
 claimed = {
+    'C05': ('proof', 'Coq theorem C05_safe_coarse: in every history of register/resume, pause/exit, quiescent and retire calls by any number of '
+            'threads (calls atomic, distinct blocks), every block is freed only when no thread registered at its request is still to pass a '
+            'quiescent state; C05_immediate: a request is executed at once only when at most one thread is registered. The model is validated '
+            'call by call against the implementation; additionally every atomic step inside the calls is a scheduling point of a '
+            'bounded-preemption + random exploration on the real code, which is how defect D5 (now fixed) is exposed.', '5 C05', QSBR_NOTE,
+            'Coq invariant proof over the coarse model + differential correspondence + deterministic schedule exploration of the implementation'),
+    'C06': ('proof', 'Coq theorems: pending + freed is a permutation of retired in every history (exactly once, whether the requester runs on, '
+            'pauses or exits), the thread count in the state word equals the number of registered threads with P <= T, and after all but one '
+            'thread have left two quiescent states of the remaining one leave nothing pending. The three-round bound is checked on the '
+            'implementation (drain phases, exploration) but not stated as a theorem.', '5 C06', QSBR_NOTE,
+            'Coq invariant proof over the coarse model + differential correspondence + deterministic schedule exploration'),
     'C01': ('proof', 'Coq theorems C01_refines_map / C01_invariant: every history of get/insert/remove/empty/clear over keys of one '
             'fixed length 1..8 returns exactly what an association-list map returns (including leaf identity), never goes out of '
             'bounds, and leaves a well-formed tree holding exactly the map\'s entries; machine-checked refutation for byte keys '
